@@ -66,9 +66,12 @@ structure State where
   missingTerm : Nat
   missingFar : Nat
   frontier : Frontier
+  /-- `pending_watermark`: a frontier increase caused by a replica ending its iteration, announced
+      right before the next data element unless a later watermark supersedes it -/
+  pending : Option Int := none
   deriving Repr, DecidableEq
 
-def init (n : Nat) : State := ⟨n, n, n, Frontier.new n⟩
+def init (n : Nat) : State := ⟨n, n, n, Frontier.new n, none⟩
 
 /-- One arrival. -/
 inductive Arrival (α : Type) where
@@ -82,7 +85,7 @@ inductive Arrival (α : Type) where
 def afterCounters (s : State) : State × List (Elem α) :=
   if s.missingTerm = 0 then (s, [.term])
   else if s.missingFar = 0 then
-    ({ s with missingFar := s.n, frontier := s.frontier.reset }, [.far])
+    ({ s with missingFar := s.n, frontier := s.frontier.reset, pending := none }, [.far])
   else (s, [])
 
 /-- Process one arrival, returning what `next()` yields because of it (in order). -/
@@ -95,14 +98,23 @@ def step (s : State) (a : Arrival α) : State × List (Elem α) :=
     match e with
     | .wm t =>
       let (f, out) := s.frontier.update r t
-      ({ s with frontier := f }, match out with | some t' => [.wm t'] | none => [])
+      match out with
+      | some t' => ({ s with frontier := f, pending := none }, [.wm t'])   -- supersedes a pending one
+      | none => ({ s with frontier := f }, [])
     | .far =>
-      -- `self.watermark_frontier.update(sender, Timestamp::MAX);` — result discarded
-      let (f, _) := s.frontier.update r TS_MAX
-      afterCounters { s with frontier := f, missingFar := s.missingFar - 1 }
+      -- `if let Some(ts) = self.watermark_frontier.update(sender, Timestamp::MAX) { pending = Some(ts) }`
+      let (f, out) := s.frontier.update r TS_MAX
+      afterCounters { s with frontier := f, missingFar := s.missingFar - 1,
+                             pending := match out with | some t' => some t' | none => s.pending }
     | .term => afterCounters { s with missingTerm := s.missingTerm - 1 }
-    | .item a => (s, [.item a])
-    | .ts a t => (s, [.ts a t])
+    | .item a =>
+      match s.pending with
+      | some p => ({ s with pending := none }, [.wm p, .item a])   -- the stashed element follows
+      | none => (s, [.item a])
+    | .ts a t =>
+      match s.pending with
+      | some p => ({ s with pending := none }, [.wm p, .ts a t])
+      | none => (s, [.ts a t])
     | .flushBatch => (s, [.flushBatch])
 
 /-- Outputs of a whole arrival sequence, each tagged with the index of the arrival causing it. -/
